@@ -145,7 +145,7 @@ class GR:
         return "iso=%d;tr=%s;fm=%s;fl=%s;loc=%s" % (r.randrange(2), r.choice(["none", "none", "upper", "pseudo"]),
                                                     r.choice(["none", "none", "numbr", "strwrap"]),
                                                     fl or r.choice(["st", "st", "conc"]),
-                                                    r.choice(["en", "en", "en-US", "pl", "ru", "ar", "fr", "cs", "lt", "ja", "xx"]))
+                                                    r.choice(["en", "en", "en-US", "pl", "ru", "ar", "fr", "cs", "lt", "ja", "xx", "pt", "pt-PT"]))
 
     def requests(self, args=None):
         r = self.r
